@@ -2,7 +2,7 @@
 # For every seeded change: run the property's check against a scratch worktree that has the change applied
 # (a side build of detsim pointing at /tmp/wt/confirm, output under /tmp/dsx-out), keep the first minimised
 # replay file as seeded/<id>/detsim-replay.json, and confirm that this replay passes on the clean worktree.
-WT=/tmp/wt/confirm; DSX=/tmp/dsx; OUT=/verif/seeded/WITNESSED.txt
+WT=${WT:-/tmp/wt/confirm}; DSX=${DSX:-/tmp/dsx}; DSXOUT=${DSXOUT:-/tmp/dsx-out}; L=${LANE:-a}; OUT=/verif/seeded/WITNESSED.txt
 ONLY="$*"
 for d in /verif/seeded/*/; do
   id=$(basename $d); chk=${id%%-*}
@@ -10,17 +10,17 @@ for d in /verif/seeded/*/; do
   if [ -n "$ONLY" ] && ! echo " $ONLY " | grep -q " $id "; then continue; fi
   grep -q '"caught": "n/a' $d/meta.json && { echo "$id n/a (neutralised by a repair)" >> $OUT; continue; }
   cd $WT && git reset -q --hard && git apply $d/patch.diff || { echo "$id patch does not apply" >> $OUT; continue; }
-  (cd $DSX && cargo build --release --offline >/tmp/dsx_build.log 2>&1) || { echo "$id build failed" >> $OUT; continue; }
-  rm -rf /tmp/dsx-out/replays/$chk
-  VERIF_BUDGET_S=${BUDGET:-25} VERIF_JOBS=${JOBS:-6} $DSX/target/release/detsim check $chk quick > /tmp/dsx_run.log 2>&1
-  rp=$(grep -m1 "^VIOLATION" /tmp/dsx_run.log | sed 's/.*replay=//')
-  if [ -z "$rp" ] || [ ! -f "$rp" ]; then echo "$id NOT CAUGHT within budget: $(tail -1 /tmp/dsx_run.log | cut -c1-120)" >> $OUT; cd $WT && git reset -q --hard; continue; fi
-  cls=$(grep -A1 -m1 "^VIOLATION" /tmp/dsx_run.log | grep "class=" | sed 's/.*class=\([^ ]*\).*/\1/')
+  (cd $DSX && cargo build --release --offline >/tmp/dsx_build_$L.log 2>&1) || { echo "$id build failed" >> $OUT; continue; }
+  rm -rf $DSXOUT/replays/$chk
+  VERIF_BUDGET_S=${BUDGET:-25} VERIF_JOBS=${JOBS:-6} $DSX/target/release/detsim check $chk quick > /tmp/dsx_run_$L.log 2>&1
+  rp=$(grep -m1 "^VIOLATION" /tmp/dsx_run_$L.log | sed 's/.*replay=//')
+  if [ -z "$rp" ] || [ ! -f "$rp" ]; then echo "$id NOT CAUGHT within budget: $(tail -1 /tmp/dsx_run_$L.log | cut -c1-120)" >> $OUT; cd $WT && git reset -q --hard; continue; fi
+  cls=$(grep -A1 -m1 "^VIOLATION" /tmp/dsx_run_$L.log | grep "class=" | sed 's/.*class=\([^ ]*\).*/\1/')
   cp $rp $d/detsim-replay.json
-  $DSX/target/release/detsim replay $d/detsim-replay.json > /tmp/dsx_rep1.log 2>&1; with=$?
+  $DSX/target/release/detsim replay $d/detsim-replay.json > /tmp/dsx_rep1_$L.log 2>&1; with=$?
   cd $WT && git reset -q --hard
-  (cd $DSX && cargo build --release --offline >/tmp/dsx_build.log 2>&1)
-  $DSX/target/release/detsim replay $d/detsim-replay.json > /tmp/dsx_rep2.log 2>&1; without=$?
+  (cd $DSX && cargo build --release --offline >/tmp/dsx_build_$L.log 2>&1)
+  $DSX/target/release/detsim replay $d/detsim-replay.json > /tmp/dsx_rep2_$L.log 2>&1; without=$?
   echo "$id check=$chk class=$cls replay_exit_with_patch=$with replay_exit_without_patch=$without" >> $OUT
 done
 cd $WT && git reset -q --hard
